@@ -65,7 +65,8 @@ check("C18", "exploration",
       "thorough tier) against set semantics computed in wider arithmetic, plus the full product of boundary grids for "
       "int32_t and double, every compound operation again with operands that alias the receiver (its own bounds, the range itself), "
       "plus the same enumeration under UBSan for the overflow clause. For int8_t this is a complete "
-      "decision of the property; for the wide types it is exhaustive over the grid only.",
+      "decision of the property; for the wide types it is exhaustive over the grid only. "
+      "Element equality, && with an element and the named aliases are enumerated on all grids; grids for float, int16_t, int64_t and fractional double bounds.",
       "Trusts the reference semantics in harness/standalone_c18.cpp (set definitions evaluated in int/__int128) and "
       "gcc's UBSan. Cases whose true result leaves the element type are skipped, as the statement allows.",
       "bounded-exhaustive enumeration of all operand tuples on the real code (explicit reference model)",
@@ -79,7 +80,8 @@ check("C01", "model_checking",
       "(quick) / 3 (thorough) plus -O2+libstdc++-assertions build one level deeper, pruned on a state digest taken at the "
       "observation point before end of input; then every single structural/byte fault and truncation of a kitchen-sink XML "
       "document and the repository models (buffer/fd/file), 35 growth families for recursion depth and time "
-      "proportionality (CPU time, re-measured alone), a grid of token lengths around the lexer's 4000-byte limit in 16 position classes, and 1100+ documents with semantically invalid but syntactically clean declarations and labels (the builder's error branches; alone, in pairs, in four slots), every dynamic-template construct (4 quantifiers over instances x 7 kinds of template operand x 28 body shapes, spawn/exit/numOf x 21 operand shapes, in labels, function bodies and queries) and 55 more searches with a dynamic template in scope; initialiser lists of up to 3/4 elements for records and arrays; 396 synchronisation x guard x controllability x invariant combinations; 2488 ill-typed queries (every query form with one operand or the bound of the wrong kind); 12000+ whole texts through the pretty-printing back end. Oracle: returns or throws std::exception, no sanitizer/assertion report, process alive, in time.",
+      "proportionality (CPU time, re-measured alone), a grid of token lengths around the lexer's 4000-byte limit in 16 position classes, and 1100+ documents with semantically invalid but syntactically clean declarations and labels (the builder's error branches; alone, in pairs, in four slots), every dynamic-template construct (4 quantifiers over instances x 7 kinds of template operand x 28 body shapes, spawn/exit/numOf x 21 operand shapes, in labels, function bodies and queries) and 55 more searches with a dynamic template in scope; initialiser lists of up to 3/4 elements for records and arrays; 396 synchronisation x guard x controllability x invariant combinations; 2488 ill-typed queries (every query form with one operand or the bound of the wrong kind); 12000+ whole texts through the pretty-printing back end. Oracle: returns or throws std::exception, no sanitizer/assertion report, process alive, in time. "
+      "Chains of 1-3 (partial) instantiations (every own-parameter list x every argument list, XML and XTA) are part of the semantic corpus.",
       "No hand model: every transition is an execution of the implementation (traces_validated_against_impl = runs). Pruning "
       "is sound if the digest covers what later callbacks read (DESIGN.md §3/C01); 'shape'-digest runs are heuristic. Bounded: "
       "token strings up to the depth from the listed seeds/alphabets; single (thorough: sampled pairs of) XML faults.",
@@ -93,7 +95,8 @@ check("C02", "exploration",
       "update, a statement and a query; the tree handed to clients must equal the abstract tree (kinds, operand order, "
       "symbols, constants); every depth-1 tree also in 12 positions of control statements (conditions, for-init/step, return, assert, "
       "inner statements) next to 11 bodies with declarations. Literal boundary grid: integers exact or diagnosed, floats bit-equal to the correctly rounded "
-      "double. Exhaustive within the stated tree shapes.",
+      "double. Exhaustive within the stated tree shapes. "
+      "Postfix chains on process sets: every argument tuple over 6 expressions for sets of arity 1-3 x 4 member forms (1 032 query trees).",
       "Trusts the reference operator table R1 (lib/exprgen.py), the harness s-expression renderer and Python float() as "
       "correctly rounded reference. Small scope: depth <= 3, one representative per operator class.",
       "bounded-exhaustive tree enumeration on the real parser against a reference operator table (render/parse round trip)",
@@ -117,7 +120,8 @@ check("C04", "exploration",
       "to XML, parsed by the real library, and the built document (templates, parameters, locals, locations with "
       "names/labels/flags, branchpoints, init, edges with resolved end points/controllable/all labels, globals, instances "
       "and processes with positional argument binding and priorities) is compared with the document computed from the "
-      "abstract model. Every label/initialiser/argument carries a site-unique constant.",
+      "abstract model. Every label/initialiser/argument carries a site-unique constant. "
+      "The generator declares channels with one and two prefixes (globals, arrays, reference parameters), meta / const bool / double globals and nested quantifiers whose binder shadows a global; declared types of globals are compared.",
       "Trusts the reference lib/modelgen.py expected() and harness docdump. Small scope: <= 3 templates, <= 4 locations, <= 2 "
       "branchpoints, <= 8 edges.",
       "choice-tree DFS with deviation bound on the real parser against a reference model of the document",
@@ -142,7 +146,8 @@ check("C06", "fault_enumeration",
       "&#13;&#10; line ends, block and line comments, tabs, backslash continuations). Every error and warning is resolved "
       "against an independent DOM of the same bytes: XPath selects exactly one element, lines within the element's text, "
       "columns within the line, start not after end; an error lies in the faulted block (only there for non-declaring "
-      "labels); an unknown identifier is covered exactly.",
+      "labels); an unknown identifier is covered exactly. "
+      "Type-checker diagnostics: 57 semantically wrong declarations (global / local, three leads) and 18 semantically wrong system sections - every diagnostic inside its block.",
       "ElementTree is the independent DOM. An edit of a declaring block that leaves it valid (renamed declaration etc.) "
       "legitimately surfaces at the uses; 'an error inside the block' is then not demanded.",
       "exhaustive single-fault enumeration (every token position x fault kind x layout) on the real code, independent-DOM oracle",
@@ -154,7 +159,8 @@ check("C07", "exploration",
       "pairwise distinguishable types; every model carries 23 use sites (before/after each declaration, inside/outside each "
       "scope, labels with and without select binder, invariant, another template, system section, a later declaration) and 4 "
       "queries (v, P.v, P.w with argument substitution, T2.v). The declaration each use is bound to is read from the real "
-      "document and compared with a reference lexical resolver; unknown uses must be diagnosed, one diagnostic each. Error-recovery histories: the same use sites after each of 12 erroneous declarations (missing return, unknown names, syntax errors in statements / nested blocks / quantifiers / iterations / parameter lists / initialisers, duplicates) that declare the name in scopes of their own, at three positions; declarations after a syntactically well-formed erroneous one must stay where they were declared. Use sites inside types (array sizes, range bounds, 7 positions), statements starting with the name after unbraced constructs, two processes of one template in one query. Members of dynamic instances: 16 subsets of {global, enclosing template, two dynamic templates} x 10 labels (member of the bound instance, bare names in and after the body, nested binders of one name, a binder named like the variable, a failed member lookup followed by a bare name) + 2 SMC queries.",
+      "document and compared with a reference lexical resolver; unknown uses must be diagnosed, one diagnostic each. Error-recovery histories: the same use sites after each of 12 erroneous declarations (missing return, unknown names, syntax errors in statements / nested blocks / quantifiers / iterations / parameter lists / initialisers, duplicates) that declare the name in scopes of their own, at three positions; declarations after a syntactically well-formed erroneous one must stay where they were declared. Use sites inside types (array sizes, range bounds, 7 positions), statements starting with the name after unbraced constructs, two processes of one template in one query. Members of dynamic instances: 16 subsets of {global, enclosing template, two dynamic templates} x 10 labels (member of the bound instance, bare names in and after the body, nested binders of one name, a binder named like the variable, a failed member lookup followed by a bare name) + 2 SMC queries. "
+      "Extent of binder scopes: forall / exists / sum with 13-16 unparenthesised bodies in guards, invariants, updates, functions and queries.",
       "The bound declaration is identified through the upper bound of the symbol's declared range. Parameter+local of the "
       "same name share a frame (duplicate definition) and are excluded.",
       "bounded-exhaustive enumeration of declaration subsets x use sites on the real parser against a reference scope resolver",
@@ -167,7 +173,8 @@ check("C08", "exploration",
       "every parse of a union corpus enumerated exhaustively: the C04 choice-tree space as XML and XTA, every text block x 19 "
       "hostile texts, every single structural XML fault at every site, duplicate names over all ordered pairs of 16 "
       "declaration kinds, degenerate XTA processes in both syntaxes, the 21 constructs of C05 alone / in pairs / cut off after "
-      "every token in both formats - after normal return, diagnostics or exception.",
+      "every token in both formats - after normal return, diagnostics or exception. "
+      "Dynamic templates announced and defined with different parameter lists (9 x 12 pairs, XML and XTA).",
       "Trusts harness/dump.cpp:invcheck (self-tested against 11 hand-made corruptions on every run). Documents of crashed "
       "processes cannot be inspected (C01).",
       "bounded-exhaustive fault/shape enumeration on the real parser with an invariant oracle on every resulting state",
@@ -197,7 +204,8 @@ check("C11", "exploration",
       "stands before / between / after the called functions; invariants of urgent and committed locations; queries calling template-local "
       "functions through a process or an element of a process set (7 writers, 3 readers, 9 query forms); the writing expression in the "
       "initialiser, every size and the range bound of a variable of every declared-type shape (0-3 dimensions cut into typedef groups, "
-      "const / meta prefixes, four bases, three scopes: 1041 places x 8 write forms quick, 1218 x 54 thorough).",
+      "const / meta prefixes, four bases, three scopes: 1041 places x 8 write forms quick, 1218 x 54 thorough). "
+      "Arguments of partial instances and of partial instances of partial instances are contexts too.",
       "Twins in compile-time contexts read constants only. Progress measures are not in the statement's list and are not "
       "enumerated. Small scope: chains <= 3, one representative per statement form.",
       "bounded-exhaustive matrix enumeration on the real type checker with a twin (differential) oracle",
@@ -212,7 +220,8 @@ check("C12", "exploration",
       "buried in 11 composite types (records of arrays of a typedef'd const, arrays of records, nested records): every scalar "
       "access path x 8 write forms x {update, function body, reference parameter of the composite type}. Dynamic templates with "
       "const / reference parameters and spawn arguments; 14 shapes of a constant reaching a written reference parameter through the "
-      "own parameters of one and two partial instances; constants whose initialiser or size contains a quantifier.",
+      "own parameters of one and two partial instances; constants whose initialiser or size contains a quantifier. "
+      "Record types written out in place (`const struct { .. } s`) are among the type shapes.",
       "Quantifier binders have no accepted twin. Small scope: listed shapes/forms.",
       "bounded-exhaustive matrix enumeration on the real type checker with a twin (differential) oracle",
       "DESIGN.md §3/C12")
@@ -228,7 +237,8 @@ check("C13", "exploration",
       "run-time values), const-typed template parameters through functions, chains of 1-3 partial instantiations, and 8 chains "
       "through template-local constant arrays / records / arrays of records x 4 sinks, and 14 functions that read the variable in exactly one "
       "syntactic position; a named type declared a second time (8 scope pairs and same-scope pairs of different names x 6 kinds x 3 uses x "
-      "8 expressions, either order); mutable cell must be rejected, constant twin accepted.",
+      "8 expressions, either order); mutable cell must be rejected, constant twin accepted. "
+      "Contexts on LSC templates (arguments, partial instances, own-parameter ranges) and arguments of partial instances of partial instances.",
       "Every declared type is used. Function-local initialisers are outside the statement. Small scope: chains <= 3.",
       "bounded-exhaustive matrix enumeration on the real type checker with a twin (differential) oracle",
       "DESIGN.md §3/C13")
@@ -237,7 +247,8 @@ check("C14", "exploration",
       "Full matrix: all ordered operand pairs from a typed pool x 11 commutative operators (a op b vs b op a), all ordered "
       "pairs as inline-if branches (c?a:b vs !c?b:a), and all ordered pairs of 22 typedef'd types incl. aliases of aliases as (argument, reference "
       "parameter) for functions and templates, each executed on the real type checker; oracle = same verdict and same base "
-      "kind under the swap, and acceptance of a reference argument iff the types are equivalent.",
+      "kind under the swap, and acceptance of a reference argument iff the types are equivalent. "
+      "The swap inside whole documents: 15 operands x operators and 9 conditions x 36 branch pairs in 7 contexts (initialisers, array size, range bound, template argument, guard, update) - same verdict and messages.",
       "Trusts the equivalence table of the 16 types in checks/c14.py; kinds are compared after stripping const/range/label "
       "wrappers. Small scope: the operand pool.",
       "bounded-exhaustive matrix enumeration on the real code with a metamorphic (swap) oracle",
@@ -251,7 +262,7 @@ check("C15", "model_checking",
       "XMLDocError / runtime_error / TypeException from inside the grammar, unterminated comments, 3.x syntax, a client builder "
       "aborting inside a comment / an array declarator / a label, literals that leave errno set). All histories of length <= 2 (quick) / 3 (thorough) from "
       "five counter seeds without pruning, then BFS to depth 3 / 6 merging histories that leave identical global state, then "
-      "every alignment of the 32-bit position counter relative to 2^31 and 2^32 for every event, then all histories of length <= 3 / 4 over 15 "
+      "every alignment of the 32-bit position counter relative to 2^31 and 2^32 for every event, then all histories of length <= 3 / 4 over 18 "
       "events on documents that stay alive between calls (queries and expression blocks against three kept documents, replacing and dropping "
       "them, reads of other documents in between). Oracle: each call's canonical "
       "result (return value or exception class, diagnostics with path/line/columns as the library renders them, document "
